@@ -10,7 +10,7 @@
    any number of transactions / keys (duplicates allowed) / timestamps.  [reach sf ns s]: the same with
    distinct keys in every Lock (what txn.go passes).  held l = the first lacq keys of l (sorted by genLock). *)
 From Coq Require Import NArith List.
-From Verif Require Import Latch.Model Latch.ProofsOps Latch.ProofsBase Latch.ProofsInv Latch.ProofsSys Latch.ProofsLive Latch.ProofsRec Latch.ProofsClient Latch.ProofsThm Latch.ProofsEx.
+From Verif Require Import Latch.Slot Latch.Model Latch.ProofsOps Latch.ProofsBase Latch.ProofsInv Latch.ProofsSys Latch.ProofsLive Latch.ProofsRec Latch.ProofsClient Latch.ProofsThm Latch.ProofsEx.
 Import ListNotations.
 
 (* Exclusive (no hypothesis on the key lists): a lock counts a key as acquired iff the key's node names it as
@@ -117,6 +117,13 @@ Theorem C17_live_client_ok : forall sf ns tr s, Forall (allowed (@NoDup key)) tr
   (forall sl, waitS (lat s) sl = []).
 Proof. exact live_client_ok. Qed.
 Print Assumptions C17_live_client_ok.
+
+(* The slot function itself (Slot.v: NewLatches' rounding, murmur3.Sum32 & mask; compared with the code on every key the
+   drivers use): the index is always inside the slots array, which is at least as large as requested. All other theorems
+   hold for an arbitrary slot function. *)
+Theorem C17_slot_in_range : forall size key, (slot_id size key < round_pow2 size)%N /\ ((1 <= size)%N -> (size <= round_pow2 size)%N).
+Proof. exact (fun size key => conj (slot_in_range size key) (round_pow2_ge size)). Qed.
+Print Assumptions C17_slot_in_range.
 
 (* The composite acquire() of latch.go (used by Lock() and wakeup()) is the iteration of the atomic steps *)
 Theorem C17_acquire_is_steps : forall sf ns s i L' r, reach_any sf ns s -> pc s i = TAcq ->
@@ -266,4 +273,9 @@ Example C17_ex_cproj :
   (client_okb (cproj sf0 1 (tr_handoff ++ [LRel; LWake; LTrig; LAcq 2]) init_state) = false) /\
   (cproj sf0 1 (tr_handoff ++ [LRel; LWake]) init_state
    = [CLock 0 1%N; CLock 1 2%N; CLock 2 7%N; CRet 0 false; CUnlock 0 5%N; CRet 1 true]).
+Proof. vm_compute. repeat split. Qed.
+
+Example C17_ex_slots :
+  (murmur3_32 [97; 98; 99; 100; 101] = 3902511862 /\ murmur3_32 [97] = 1009084850 /\ round_pow2 3 = 4 /\
+   slot_id 8 [97] = 2 /\ slot_id 1 [97; 7] = 0)%N.
 Proof. vm_compute. repeat split. Qed.
